@@ -60,11 +60,14 @@ func main() {
 	}
 	bound := c.Pick(1, 2)
 	_ = bound
-	budget := c.PickD(100*time.Second, 20*time.Minute)
+	budget := c.PickD(140*time.Second, 20*time.Minute)
 	deadline := time.Now().Add(budget)
 	for i, n := range names {
 		// what is left of the budget is shared by the scenarios still to run
-		per := time.Until(deadline) / time.Duration(len(names)-i)
+		per := 2 * time.Until(deadline) / time.Duration(len(names)-i) // twice the even share: most scenarios finish well below it, the deadline bounds the total
+		if per > time.Until(deadline) {
+			per = time.Until(deadline)
+		}
 		if per < 2*time.Second {
 			per = 2 * time.Second
 		}
